@@ -166,7 +166,7 @@ func replayC12(c *Check, sc *core.Scenario) []core.Violation {
 }
 
 func init() {
-	Register(&Check{ID: "C12", Level: "fault_enumeration", Sim: "D", Runs: map[string]int{"quick": 640, "thorough": 3200},
+	Register(&Check{ID: "C12", Level: "fault_enumeration", Sim: "D", Runs: map[string]int{"quick": 640, "thorough": 1600},
 		Rule: "per generated rule set: clean store/load/re-store/re-load with metadata and behavioural comparison on 3 fact sets; EVERY write-call index failed once; truncation at every write boundary plus 256 seeded interior offsets (thorough: every byte offset); 5 reader chunkings; 66 sampled (thorough: all) failing read calls; overwrite flag. evaluations = single store/load operations; distinct/non-trivial = distinct (rule set, operation class, write-order seed) triples (the number of positions tried per class is in fault_kinds_fired) - every counted operation lands inside a stream",
 		Assumptions: []string{"behavioural equivalence is judged on 3 generated fact sets per rule set under Sim E (identical event trace, final facts and return value), not on every fact set",
 			"a strict prefix of a stored stream can never be a complete stream, so any successful load of one is reported"},
